@@ -83,10 +83,14 @@ LinesData(c) == JoinLines(c.ls)
 
 Expected(st, c) ==
   LET op == c.op IN
-  IF op = "cwd" THEN R(st, ROk(PV(st.cwd)))
+  IF (op \in {"write_lines", "append_lines"} /\ LinesData(c) = <<>>) \/ (op = "append_line" /\ (c.ls = <<>> \/ c.ls[1] = <<>>))
+  THEN R(st, ROk(Unit))                                            \* D2: nothing to write - nothing happens, the path is not even looked at
+  ELSE IF op = "cwd" THEN R(st, ROk(PV(st.cwd)))
   ELSE IF op = "root" THEN R(st, ROk(PV(Root)))
   ELSE LET ra == ResolveA(st, c) IN
-  IF ra.o # "ok" THEN (IF op \in BoolQ THEN R(st, ROk(BoolV(FALSE))) ELSE ArgErr(st, ra.o))
+  IF ra.o # "ok" THEN (IF op \in BoolQ THEN R(st, ROk(BoolV(FALSE)))
+                       ELSE IF op \in ListQ THEN R(st, RErrAny)       \* listings document no error kinds
+                       ELSE ArgErr(st, ra.o))
   ELSE LET p == ra.p IN
   IF op \in TwoPath THEN
      (IF op = "symlink" THEN
@@ -170,12 +174,17 @@ StateOK(o, pre, post) ==
    \/ (IF o.paired THEN FALSE ELSE (StEq(o.st, post) \/ \E a \in o.alt : StEq(a, post)))
 PairedOK(o, pre, post, got) == IF got.o = "ok" THEN StEq(o.st, post) ELSE post = pre
 
+\* with follow a traversal may stop with LinkLooping as soon as a followed link leads to a directory: admissible (C08 decides exactly when)
+LoopAdmissible(st, c) == /\ c.op \in {"chmod_b", "chown_b"} /\ HasFlag(c, "F")
+                         /\ LET ra == ResolveA(st, c) IN ra.o = "ok" /\ Exists(st.fs, ra.p)
+                              /\ \E x \in Visit(st.fs, ra.p, ~HasFlag(c, "R"), TRUE) : IsLink(st.fs, x) /\ TK(st.fs, st.fs[x].t) = "dir"
 JudgeStep(pre, s) ==
    LET c == s.c
        viol == IF s.same = "t" THEN "-" ELSE RepViolation(s.post)
    IN IF (c.aok # "t" /\ Ambiguous(c.a)) \/ (c.bok # "t" /\ Ambiguous(c.b)) THEN << <<"skip", "ambiguous-expansion">> >>
       ELSE LET o == Expected(pre, c) IN
-      IF s.r.o = "panic" THEN << Sig(pre, c, s.r, o.res, "panic") >>
+      IF s.r.o = "Path::LinkLooping" /\ LoopAdmissible(pre, c) THEN << <<"ok", c.op, "linklooping">> >>
+      ELSE IF s.r.o = "panic" THEN << Sig(pre, c, s.r, o.res, "panic") >>
       ELSE IF viol # "-" THEN << Sig(pre, c, s.r, o.res, "ILLFORMED:" \o viol) >>
       ELSE LET post == IF s.same = "t" THEN pre ELSE AbsOf(s.post)
                resOK == ResMatch(pre, c, o.res, s.r)
